@@ -1415,6 +1415,23 @@ def m_option_unwrap_or(ex, st, call, args):
     return gen()
 
 
+def m_option_as_ref(ex, st, call, args):
+    """Option::as_ref / as_mut on an option whose variant is known: None, or Some(reference to the payload in place)"""
+    a = args[0]
+    if a[0] == "ref":
+        cur = ex.load(st, a[1])
+        if cur[0] == "adt" and cur[1] == "core::option::Option":
+            if cur[2] == "None":
+                return _ret(st, ("adt", "core::option::Option", "None", ()))
+            root, path = a[1]
+            return _ret(st, ("adt", "core::option::Option", "Some", (("ref", (root, tuple(path) + (("downcast", 1, "Some"), ("field", 0, None))), a[2]),)))
+    elif a[0] == "&" and a[1][0] == "adt" and a[1][1] == "core::option::Option" and call.method == "as_ref":
+        if a[1][2] == "None":
+            return _ret(st, ("adt", "core::option::Option", "None", ()))
+        return _ret(st, ("adt", "core::option::Option", "Some", (("&", a[1][3][0]),)))
+    return NotImplemented
+
+
 ORD = "core::cmp::Ordering"
 
 
@@ -1500,6 +1517,8 @@ DEFAULT_MODELS = {
     "core::cmp::Ordering::then": m_ord_then,
     "core::cmp::Ordering::reverse": m_ord_reverse,
     "core::option::Option::<T>::map": m_option_map,
+    "core::option::Option::<T>::as_ref": m_option_as_ref,
+    "core::option::Option::<T>::as_mut": m_option_as_ref,
     "core::option::Option::<T>::is_some": m_option_is(True),
     "core::option::Option::<T>::is_none": m_option_is(False),
     "core::option::Option::<T>::unwrap": m_option_unwrap,
